@@ -73,6 +73,19 @@ def project_docs(font, srcs):
     return body, sorted(d for d in defs if d), docs
 
 
+def project_gids(font, srcs):
+    """Glyph ids as the model counts them: position among the colour glyphs in the font's glyph order (1-based), per
+    source input index; and the document records as [min, max] in the same numbering."""
+    order = font.getGlyphOrder()
+    names = {s.glyph_name: i + 1 for i, s in enumerate(srcs)}
+    colour_pos = [g for g in order if g in names]
+    gid = {names[g]: k + 1 for k, g in enumerate(colour_pos)}
+    first = min(order.index(g) for g in colour_pos)
+    contiguous = [order.index(g) for g in colour_pos] == list(range(first, first + len(colour_pos)))
+    ranges = [[start - first + 1, end - first + 1] for _, start, end in oracle_otsvg.svg_records(font)]
+    return gid, ranges, contiguous
+
+
 def structural_checks(chk, font, ctx, replay):
     """C07-style constraints on the real SVG table (also used by C07)."""
     recs = oracle_otsvg.svg_records(font)
@@ -202,11 +215,16 @@ def replay_model(chk, recs, n):
                        deltas=CC.layer_deltas(glyphs, cfg, 0.1))
         body, defs, docs = project_docs(font, srcs)
         m_body = {i + 1: [{"t": it["t"], "ref": it["ref"]} for it in b] for i, b in enumerate(sc["body"])}
-        if body != m_body or sorted(defs) != sorted(sc["defs"]) or docs != sc["docs"]:
+        # glyph-id bookkeeping (Reshuffle): where each colour glyph ends up, and the documents' records
+        gid, ranges, contiguous = project_gids(font, srcs)
+        m_gid = {i + 1: g for i, g in enumerate(sc["gid"])}
+        m_ranges = [[min(m_gid[g] for g in d), max(m_gid[g] for g in d)] for d in sc["docs"]]
+        if body != m_body or sorted(defs) != sorted(sc["defs"]) or docs != sc["docs"] or gid != m_gid or ranges != m_ranges or not contiguous:
             drift += 1
             if drift <= 3:
                 chk.notes.setdefault("structure_drift_samples", []).append(
-                    {"real": {"body": body, "defs": defs, "docs": docs}, "model": {"body": m_body, "defs": sc["defs"], "docs": sc["docs"]}})
+                    {"real": {"body": body, "defs": defs, "docs": docs, "gid": gid, "ranges": ranges},
+                     "model": {"body": m_body, "defs": sc["defs"], "docs": sc["docs"], "gid": m_gid, "ranges": m_ranges}})
     chk.notes["structure_drift"] = drift
 
 
@@ -325,6 +343,11 @@ def run(chk):
         chk.tlc_violation(res, "OTSVG")
     if res.vacuous_actions():
         raise MachineryError(f"vacuous actions: {res.vacuous_actions()}")
+    # negative configuration: re-appending only the groups that really share must break the glyph-id bookkeeping
+    neg = common.run_tlc("OTSVG", "OTSVG_nomove.cfg", timeout=900, coverage=False)
+    chk.add_tlc(neg, "OTSVG_nomove (MoveSingletons = FALSE: expected to violate GidIsPosition / DocRanges)")
+    if neg.ok:
+        raise MachineryError("OTSVG_nomove.cfg holds: GidIsPosition / DocRanges are vacuous")
     if len(res.records) < 500:
         raise MachineryError("too few OTSVG scenarios")
     chk.exhaustive = True
